@@ -117,12 +117,21 @@ def demo_params(draw, model, g, allow_cutoff=True):
                     pts.add(v)
             grid = sorted(pts)
             p["grid"] = grid
-        # no coalescent time exactly on a grid point
-        grid = [x * (1 + 1e-6) if x in c else x for x in grid]
+        # no coalescent time on (or within rounding distance of) a grid point
+        sep = 1e-6 * max(1.0, root)
+
+        def separated(gr):
+            return all(abs(x - t) > sep for x in gr for t in c)
+
         if "grid" in p:
-            p["grid"] = grid
-        elif any(x in c for x in np.linspace(0, p["cutoff"], m)[1:].tolist()):
-            p["cutoff"] *= 1.000001
+            grid = [x for x in grid]
+            for i in range(len(grid)):
+                while any(abs(grid[i] - t) <= sep for t in c):
+                    grid[i] += 2.7 * sep
+            p["grid"] = sorted(grid)
+        else:
+            while not separated(np.linspace(0, p["cutoff"], m)[1:].tolist()):
+                p["cutoff"] *= 1.00001
     return p
 
 
